@@ -121,6 +121,27 @@ def native_shift(sizes, rng):
     return bad
 
 
+def native_many_traces(rng):
+    """each trace its own shift, for trace counts that are / are not multiples of 64 (1, 63..65, 100, 200, 384, 385 traces), both axes, float32/64"""
+    bad = []
+    for ntr in (1, 63, 64, 65, 100, 200, 384, 385):
+        n = 48
+        x = np.stack([_band_limited(n, rng) for _ in range(3)])[rng.integers(0, 3, ntr)] * rng.uniform(0.5, 2.0, (ntr, 1))
+        per = rng.uniform(-6, 6, ntr)
+        per[::5] = np.round(per[::5])
+        for dt in (np.float64, np.float32):
+            tol = 1e-9 if dt == np.float64 else 3e-5
+            xx = x.astype(dt)
+            y = F.fshift(xx.copy(), per, axis=-1)
+            ref = np.stack([F.fshift(xx[i].copy(), per[i]) for i in range(ntr)])
+            if y.shape != xx.shape or y.dtype != dt or not np.allclose(y, ref, atol=tol):
+                bad.append(("per-trace shifts, many traces, axis -1", ntr, dt.__name__, int(np.sum(~np.isclose(y, ref, atol=tol).all(axis=1)))))
+            y0 = F.fshift(xx.T.copy(), per, axis=0)
+            if y0.shape != xx.T.shape or not np.allclose(y0, ref.T, atol=tol):
+                bad.append(("per-trace shifts, many traces, axis 0", ntr, dt.__name__))
+    return bad
+
+
 def native_estimation(rng, amps, lengths=(121, 82, 90, 100, 101, 128, 66)):
     bad = []
     for amp, nlen in [(a, n) for a in amps for n in lengths]:
@@ -144,7 +165,7 @@ def native_estimation(rng, amps, lengths=(121, 82, 90, 100, 101, 128, 66)):
 
 
 @bounded(PROPERTY, "native_shift_theorem", bound="full impulse basis for n in 2..48 + {64, 97, 127, 128, 243, 251, 256} (thorough: 2..256 + primes to 2048), both axes, float32/float64, integer shifts incl. 0 and -(n-1), "
-         "composition, analytic band-limited delay, per-trace shifts on both axes, alternating axes with the same length (call history); delay estimation for amplitudes 1, 1e-3, 8e-5 x waveform lengths {121, 82, 90, 100, 101, 128, 66} (odd, 0 and 2 mod 4)",
+         "composition, analytic band-limited delay, per-trace shifts on both axes (3 traces; and 1, 63, 64, 65, 100, 200, 384, 385 traces of 48 samples), alternating axes with the same length (call history); delay estimation for amplitudes 1, 1e-3, 8e-5 x waveform lengths {121, 82, 90, 100, 101, 128, 66} (odd, 0 and 2 mod 4)",
          clause="integer shift == roll, zero shift == identity, shifts add up, fractional delay, delay estimation")
 def b_native(B):
     rng = np.random.default_rng(B.seed)
@@ -162,6 +183,8 @@ def b_native(B):
         ok = ok and np.allclose(F.fshift(b, 2, axis=0), np.roll(b, 2, axis=0), atol=1e-9)
         ok = ok and np.allclose(F.fshift(np.eye(64), 1, axis=0), np.roll(np.eye(64), 1, axis=0), atol=1e-9)
     B.case("alternating_axes_same_length", bool(ok), detail="results depend on earlier calls with another axis")
+    bad = native_many_traces(rng)
+    B.case("per_trace_shifts_many_traces", not bad, detail=bad[:6])
     bad = native_estimation(rng, [1.0, 1e-3, 8e-5])
     B.case("delay_estimation", not bad, detail=bad[:6])
 
